@@ -293,6 +293,8 @@ func concHarnesses() []concArg {
 			{{K: "WRITE", H: "root/f", Off: 0, Cnt: 5000, Pat: 0x22, Stable: 0}}, {{K: "REMOVE", H: "root", N: "f"}}, {{K: "CREATE", H: "root", N: "g"}}}},
 		{Name: "readdirplus-create-remove", DiskSize: 3000, Setup: []fsx.Op{{K: "MKDIR", H: "root", N: "d"}, {K: "CREATE", H: "root/d", N: "y"}, {K: "CREATE", H: "root/d", N: "z"}}, Clients: [][]fsx.Op{
 			{{K: "READDIRPLUS", H: "root/d", DirCnt: 1 << 20, MaxCnt: 1 << 20}}, {{K: "CREATE", H: "root/d", N: "x"}}, {{K: "REMOVE", H: "root/d", N: "y"}}}},
+		{Name: "readdirplus-write-setattr", DiskSize: 3000, Setup: []fsx.Op{{K: "MKDIR", H: "root", N: "d"}, {K: "CREATE", H: "root/d", N: "y"}}, Clients: [][]fsx.Op{
+			{{K: "READDIRPLUS", H: "root/d", DirCnt: 1 << 20, MaxCnt: 1 << 20}}, {{K: "WRITE", H: "root/d/y", Off: 0, Cnt: 100, Pat: 0x36, Stable: 2}}, {{K: "SETATTR", H: "root/d/y", Size: 50}}}},
 		{Name: "readdirplus-parent-child-inverted", DiskSize: 3000, Setup: inv(fsx.Op{K: "MKDIR", H: "root/d2", N: "sub"}, fsx.Op{K: "CREATE", H: "root/d2/sub", N: "x"}), Clients: [][]fsx.Op{
 			{{K: "READDIRPLUS", H: "root/d2", DirCnt: 1 << 20, MaxCnt: 1 << 20}}, {{K: "READDIRPLUS", H: "root/d2/sub", DirCnt: 1 << 20, MaxCnt: 1 << 20}}, {{K: "LOOKUP", H: "root/d2/sub", N: ".."}}}},
 		{Name: "lookupdotdot-rmdir-mkdir", DiskSize: 3000, Setup: []fsx.Op{{K: "MKDIR", H: "root", N: "d"}}, Clients: [][]fsx.Op{
